@@ -387,6 +387,9 @@ func init() {
 		},
 		"TrackFootprint": func(ex *Exec, fn *ssa.Function, args []Value, caller *Frame) Value {
 			ex.trackFoot = args[1].(*Term).IsTrue()
+			if ex.trackFoot {
+				ex.snapshotGlobals()
+			}
 			return nil
 		},
 	}
